@@ -188,6 +188,9 @@ func runCheck(o checkOpts) int {
 			continue
 		}
 		fails = append(fails, fail{ob, ob.Result.Verdict.String()})
+		if os.Getenv("GOVC_DEBUG") != "" && ob.fx != nil {
+			os.WriteFile("/tmp/govc_check_fail_"+sanitizeIdent(ob.Name)+".smt2", []byte(ob.fx.scriptFor(ob)), 0o644)
+		}
 	}
 
 	// 5. baseline: the obligations expected for this property must all exist
